@@ -582,7 +582,15 @@ func genAsmCase(r *prng.R, ms []asmMethod, rep *report.Report) asmCase {
 	c := asmCase{text: r.Chance(70)}
 	var body []asmOp
 	nLabels := r.N(4)
-	lname := func(i int) string { return "l" + strconv.Itoa(i) }
+	// label names of different lengths (the text listing pads them to a 12-character column)
+	lpad := []int{0, 0, 8, 12, 13, 21}[r.N(6)]
+	lname := func(i int) string {
+		n := "l" + strconv.Itoa(i)
+		if lpad > len(n) {
+			n += "_" + strings.Repeat("q", lpad-len(n)-1)
+		}
+		return n
+	}
 	defined := map[int]bool{}
 	if r.Chance(50) {
 		base := uint32(r.N(0x100)) << 16
@@ -825,7 +833,7 @@ func runAsm() {
 		}
 		replies, err = d.Batch(reqs)
 	}
-	allProps := []string{"C06", "C15", "C16", "C19"}
+	allProps := []string{"C03", "C06", "C07", "C15", "C16", "C19"}
 	if err != nil {
 		for _, p := range allProps {
 			rep.Add(report.Finding{Property: p, Kind: "disagreement", Clause: "model driver unavailable", Detail: err.Error()})
